@@ -4,10 +4,11 @@ package main
 
 import (
 	"fmt"
-	"strconv"
 	"go/ast"
 	"go/token"
 	"go/types"
+	"math/big"
+	"strconv"
 	"strings"
 )
 
@@ -76,6 +77,38 @@ func (fx *Fx) funcValueName(e ast.Expr) string {
 	return "fn"
 }
 
+func basicKind(t types.Type) types.BasicKind {
+	if t == nil {
+		return types.Invalid
+	}
+	if b, ok := t.Underlying().(*types.Basic); ok {
+		return b.Kind()
+	}
+	return types.Invalid
+}
+
+func intBits(k types.BasicKind) int {
+	switch k {
+	case types.Int8, types.Uint8:
+		return 8
+	case types.Int16, types.Uint16:
+		return 16
+	case types.Int32, types.Uint32:
+		return 32
+	case types.Int, types.Int64, types.Uint, types.Uint64, types.Uintptr:
+		return 64
+	}
+	return 0
+}
+
+func isUnsignedKind(k types.BasicKind) bool {
+	switch k {
+	case types.Uint8, types.Uint16, types.Uint32, types.Uint, types.Uint64, types.Uintptr:
+		return true
+	}
+	return false
+}
+
 func (fx *Fx) convert(st *State, v Val, to types.Type, text string) Val {
 	ts := fx.d.sortOf(to)
 	switch {
@@ -87,6 +120,18 @@ func (fx *Fx) convert(st *State, v Val, to types.Type, text string) Val {
 					out.X = app("mod", v.X, "256")
 				} else if isUnsigned64(to) && !isUnsigned64(v.T) {
 					out.X = app("mod", v.X, "18446744073709551616")
+				} else if (tb.Kind() == types.Int || tb.Kind() == types.Int64) && isUnsigned64(v.T) {
+					// uint64 -> int/int64: values from 2^63 on wrap around to negative numbers
+					out.X = ite(app(">=", v.X, "9223372036854775808"), app("-", v.X, "18446744073709551616"), v.X)
+				} else if bits := intBits(tb.Kind()); bits > 0 && bits < 64 && intBits(basicKind(v.T)) != bits {
+					// narrowing (or sign-changing) conversion to a small integer type: wraps around
+					m := new(big.Int).Lsh(big.NewInt(1), uint(bits))
+					if isUnsignedKind(tb.Kind()) {
+						out.X = app("mod", v.X, m.String())
+					} else {
+						h := new(big.Int).Rsh(m, 1)
+						out.X = app("-", app("mod", app("+", v.X, h.String()), m.String()), h.String())
+					}
 				}
 			}
 		}
@@ -188,6 +233,17 @@ func (fx *Fx) builtinCall(st *State, name string, call *ast.CallExpr, spec bool)
 			n := fx.eval(st, call.Args[1], spec)
 			if fx.inSpec == 0 {
 				fx.oblige(st, "bounds", exprText(call), app("=", n.X, fx.seqLen(v)), "unsafe conversion must cover exactly the source")
+			}
+			if fx.inSpec == 0 {
+				// the view aliases the source buffer, which the value model of strings cannot see: every such view must be
+				// declared transient in the contract of the function that takes it (allowunsafe <reason>)
+				key := fx.v.enclosingFuncKey(fx.pkg, call.Pos())
+				sp := fx.v.contracts.Funcs[key]
+				if sp == nil || sp.AllowUnsafe == "" {
+					fx.oblige(st, "unsafe", exprText(call), "false", "an unsafe string/slice view shares memory with its source; the contract of "+key+" does not declare it transient (allowunsafe <reason>), so what is built from it may change under the caller's feet")
+				} else {
+					fx.assumed["unsafe view in "+key+" is transient: "+sp.AllowUnsafe] = true
+				}
 			}
 			fx.note("unsafe.String/unsafe.Slice over StringData/SliceData are read as value conversions (aliasing with the source buffer ignored)")
 			return []Val{{T: fx.typeOf(call), S: SStr, X: v.X, Lit: v.Lit}}
@@ -1340,6 +1396,14 @@ func (fx *Fx) specBuiltin(st *State, call *ast.CallExpr) ([]Val, bool) {
 		return boolV(or(app("=", a.X, "nil"), app("<=", app(sym("birth"), a.X), fmt.Sprint(st.births)))), true
 	case "ncalls":
 		return intV(fx.trCount(st)), true
+	case "lastctxerr":
+		// trace length at the moment a context's Err() was last called on this path (-1: never)
+		if g, ok := st.ghost["ctxerrat"]; ok {
+			return intV(g.X), true
+		}
+		c := fx.d.declareConst("ctxerrat@0", SInt)
+		st.ghost["ctxerrat"] = Val{T: types.Typ[types.Int], S: SInt, X: c}
+		return intV(c), true
 	case "iscall":
 		k := fx.eval(st, call.Args[0], true)
 		name := *fx.eval(st, call.Args[1], true).Lit
